@@ -5,6 +5,10 @@
 #include "engine.h"
 #include "ref/ref_utf.h"
 #include "bitserializer/convert.h"
+#include <list>
+#include <deque>
+#include <sstream>
+#include <iterator>
 
 using namespace BitSerializer;
 using namespace BitSerializer::Convert::Utf;
@@ -180,6 +184,77 @@ VF_PROPERTY(sequences_all_ops, 3, "generated scalar sequences of length 0..4096 
 	c.label(vf::cat("classes=", __builtin_popcount(classes)));
 	if (n > 256) c.label("len>256");
 	try { all_ops(s, pol, prefix); all_convert_to(s); }
+	catch (const Mismatch& m) { c.fail("transcode-mismatch", m.what); }
+	catch (const std::exception& e) { c.fail("exception-on-valid-input", e.what()); }
+}
+
+// A single-pass source in the manner of std::istreambuf_iterator: copies share the position, so a range can be walked once only.
+template <class T> struct SinglePass {
+	using iterator_category = std::input_iterator_tag; using value_type = T; using difference_type = std::ptrdiff_t; using pointer = const T*; using reference = const T&;
+	struct State { const T* p; const T* e; }; State* st = nullptr;
+	SinglePass() = default; explicit SinglePass(State* s) : st(s) {}
+	reference operator*() const { return *st->p; }
+	SinglePass& operator++() { ++st->p; return *this; }
+	SinglePass operator++(int) { SinglePass r = *this; ++st->p; return r; }   // as with istreambuf_iterator, the copy moves on too
+	bool at_end() const { return st == nullptr || st->p == st->e; }
+	friend bool operator==(const SinglePass& a, const SinglePass& b) { return a.at_end() == b.at_end(); }
+	friend bool operator!=(const SinglePass& a, const SinglePass& b) { return !(a == b); }
+};
+
+// The same operation from four kinds of source range: raw pointers, std::list, std::deque, single-pass.
+template <class TUtf, bool Dec, class TIn, class TOut>
+void check_from_ranges(const Scalars& s, const char* name, UtfEncodingErrorPolicy pol, const TOut& prefixNative, unsigned kind, bool srcSwapped, bool outSwapped) {
+	using CI = typename TIn::value_type;
+	TIn in = ref_native<TIn>(s); if (srcSwapped) in = swapped(in);
+	TOut prefix = prefixNative, tail = ref_native<TOut>(s); if (outSwapped) { prefix = swapped(prefix); tail = swapped(tail); }
+	TOut out = prefix; const TOut want = prefix + tail;
+	auto verify = [&](const auto& r, bool atEnd) {
+		if (r.ErrorCode != UtfEncodingErrorCode::Success) throw Mismatch{ vf::cat(name, ": error code ", static_cast<int>(r.ErrorCode)) };
+		if (r.InvalidSequencesCount != 0) throw Mismatch{ vf::cat(name, ": InvalidSequencesCount=", r.InvalidSequencesCount) };
+		if (!atEnd) throw Mismatch{ vf::cat(name, ": iterator not at end") };
+		if (out != want) throw Mismatch{ vf::cat(name, ": output ", units(out), "!= expected ", units(want)) };
+	};
+	auto run = [&](auto b, auto e) { if constexpr (Dec) return TUtf::Decode(b, e, out, pol); else return TUtf::Encode(b, e, out, pol); };
+	switch (kind) {
+	case 0: { const CI* b = in.data(); const CI* e = in.data() + in.size(); auto r = run(b, e); verify(r, r.Iterator == e); break; }
+	case 1: { std::list<CI> l(in.begin(), in.end()); auto r = run(l.cbegin(), l.cend()); verify(r, r.Iterator == l.cend()); break; }
+	case 2: { std::deque<CI> l(in.begin(), in.end()); auto r = run(l.cbegin(), l.cend()); verify(r, r.Iterator == l.cend()); break; }
+	default: { typename SinglePass<CI>::State st{ in.data(), in.data() + in.size() }; auto r = run(SinglePass<CI>(&st), SinglePass<CI>()); verify(r, r.Iterator == SinglePass<CI>()); break; }
+	}
+}
+
+VF_PROPERTY(sequences_other_source_ranges, 2, "the Decode/Encode operations of the five encoder classes are templates over the source iterator: generated scalar sequences (length 0..600, all planes) supplied as raw pointers, std::list, std::deque and as a single-pass input range (the kind std::istreambuf_iterator gives; UTF-8 sources also through a real std::istreambuf_iterator<char>), appended to empty/non-empty outputs, both policies; non-trivial = a non-contiguous or single-pass source holding code points of >= 2 UTF-8 length classes")
+{
+	size_t n = c.src.len(600); Scalars s; unsigned classes = 0;
+	for (size_t i = 0; i < n; i++) { char32_t cp = gen_scalar(c.src); s.push_back(cp); classes |= 1u << refutf::utf8_len(cp); }
+	const bool prefix = c.src.coin(); const auto pol = c.src.coin() ? UtfEncodingErrorPolicy::ThrowError : UtfEncodingErrorPolicy::Skip; const unsigned kind = static_cast<unsigned>(c.src.draw(5));
+	const std::string p8 = prefix ? "x\xC3\xA9" : ""; const std::u16string p16 = prefix ? u"xé" : u""; const std::u32string p32 = prefix ? U"xé" : U"";
+	static const char* kinds[] = { "pointers", "list", "deque", "single-pass", "istreambuf" };
+	c.nontrivial = kind != 0 && __builtin_popcount(classes) >= 2; c.label(kinds[kind]);
+	c.describe(vf::cat("source=", kinds[kind], " len=", n, " prefix=", prefix, " pol=", static_cast<int>(pol), " ", refutf::show(s.substr(0, 40)), " h=", vf::hash_bytes(s.data(), s.size() * 4)));
+	constexpr bool le = Memory::Endian::native == Memory::Endian::little;
+	try {
+		if (kind == 4) {
+			const std::string in = ref_native<std::string>(s);
+			{ std::istringstream is(in); std::u16string out = p16; auto r = Utf8::Decode(std::istreambuf_iterator<char>(is), std::istreambuf_iterator<char>(), out, pol); if (!r || r.InvalidSequencesCount || r.Iterator != std::istreambuf_iterator<char>() || out != p16 + ref_native<std::u16string>(s)) throw Mismatch{ vf::cat("Utf8::Decode->16 from istreambuf_iterator: output ", units(out)) }; }
+			{ std::istringstream is(in); std::u32string out = p32; auto r = Utf8::Decode(std::istreambuf_iterator<char>(is), std::istreambuf_iterator<char>(), out, pol); if (!r || r.InvalidSequencesCount || r.Iterator != std::istreambuf_iterator<char>() || out != p32 + ref_native<std::u32string>(s)) throw Mismatch{ vf::cat("Utf8::Decode->32 from istreambuf_iterator: output ", units(out)) }; }
+			{ std::istringstream is(in); const std::u16string bp = le ? swapped(p16) : p16, bt = le ? swapped(ref_native<std::u16string>(s)) : ref_native<std::u16string>(s); std::u16string out = bp; auto r = Utf16Be::Encode(std::istreambuf_iterator<char>(is), std::istreambuf_iterator<char>(), out, pol); if (!r || r.InvalidSequencesCount || r.Iterator != std::istreambuf_iterator<char>() || out != bp + bt) throw Mismatch{ vf::cat("Utf16Be::Encode<-8 from istreambuf_iterator: output ", units(out)) }; }
+			{ std::istringstream is(in); const std::u32string bp = le ? p32 : swapped(p32), bt = le ? ref_native<std::u32string>(s) : swapped(ref_native<std::u32string>(s)); std::u32string out = bp; auto r = Utf32Le::Encode(std::istreambuf_iterator<char>(is), std::istreambuf_iterator<char>(), out, pol); if (!r || r.InvalidSequencesCount || r.Iterator != std::istreambuf_iterator<char>() || out != bp + bt) throw Mismatch{ vf::cat("Utf32Le::Encode<-8 from istreambuf_iterator: output ", units(out)) }; }
+			return;
+		}
+#define RG(U, D, I, O, P, SS, OS) check_from_ranges<U, D, I, O>(s, #U "::" #D " " #I "->" #O, pol, P, kind, SS, OS)
+		RG(Utf8, true, std::string, std::u16string, p16, false, false); RG(Utf8, true, std::string, std::u32string, p32, false, false);
+		RG(Utf8, false, std::u16string, std::string, p8, false, false); RG(Utf8, false, std::u32string, std::string, p8, false, false);
+		RG(Utf16Le, true, std::u16string, std::string, p8, !le, false); RG(Utf16Le, true, std::u16string, std::u16string, p16, !le, false); RG(Utf16Le, true, std::u16string, std::u32string, p32, !le, false);
+		RG(Utf16Be, true, std::u16string, std::string, p8, le, false); RG(Utf16Be, true, std::u16string, std::u16string, p16, le, false); RG(Utf16Be, true, std::u16string, std::u32string, p32, le, false);
+		RG(Utf16Le, false, std::string, std::u16string, p16, false, !le); RG(Utf16Le, false, std::u16string, std::u16string, p16, false, !le); RG(Utf16Le, false, std::u32string, std::u16string, p16, false, !le);
+		RG(Utf16Be, false, std::string, std::u16string, p16, false, le); RG(Utf16Be, false, std::u16string, std::u16string, p16, false, le); RG(Utf16Be, false, std::u32string, std::u16string, p16, false, le);
+		RG(Utf32Le, true, std::u32string, std::string, p8, !le, false); RG(Utf32Le, true, std::u32string, std::u16string, p16, !le, false); RG(Utf32Le, true, std::u32string, std::u32string, p32, !le, false);
+		RG(Utf32Be, true, std::u32string, std::string, p8, le, false); RG(Utf32Be, true, std::u32string, std::u16string, p16, le, false); RG(Utf32Be, true, std::u32string, std::u32string, p32, le, false);
+		RG(Utf32Le, false, std::string, std::u32string, p32, false, !le); RG(Utf32Le, false, std::u16string, std::u32string, p32, false, !le); RG(Utf32Le, false, std::u32string, std::u32string, p32, false, !le);
+		RG(Utf32Be, false, std::string, std::u32string, p32, false, le); RG(Utf32Be, false, std::u16string, std::u32string, p32, false, le); RG(Utf32Be, false, std::u32string, std::u32string, p32, false, le);
+#undef RG
+	}
 	catch (const Mismatch& m) { c.fail("transcode-mismatch", m.what); }
 	catch (const std::exception& e) { c.fail("exception-on-valid-input", e.what()); }
 }
